@@ -85,41 +85,71 @@ theorem disconnectAll_after (g : G) : ∀ (is A : List Nat), SepDiscSeq g A is =
     simp only [disconnectAll, List.foldlM_cons, disconnectStep_after g A i h.1, bind, Except.bind] at ih ⊢
     rw [ih]; simp [List.flatMap_cons, List.append_assoc]
 
-/-- closed form of `Topology.remove_node(name)` / `remove_facility`: the ports disconnected first, then the node's structure -/
-def nodeApiDel (g : G) (n : Nat) : List Nat := (ifaceListNode g n).flatMap (discDel g) ++ nodeDel g n
+/-- the interfaces `_disconnect_interfaces` visits -/
+def deepIfs (g : G) (ifs : List Nat) : List Nat := ifs.flatMap (withSubs g)
+
+theorem disconnectDeep_after (g : G) (ifs : List Nat) (h : SepDiscSeq g [] (deepIfs g ifs) = true) :
+    disconnectDeep g ifs = .ok (g.minus ((deepIfs g ifs).flatMap (discDel g))) := by
+  have h1 := disconnectAll_after g _ [] h
+  rw [minus_nil] at h1
+  simpa [disconnectDeep, deepIfs] using h1
+
+/-- closed form of `Topology.remove_node(name)` / `remove_facility`: the ports disconnected first (for every interface
+and sub-interface), then the node's structure -/
+def nodeApiDel (g : G) (n : Nat) : List Nat := (deepIfs g (ifaceListNode g n)).flatMap (discDel g) ++ nodeDel g n
 
 def SepNodeApi (g : G) (n : Nat) : Bool :=
-  SepDiscSeq g [] (ifaceListNode g n) && SepNode g ((ifaceListNode g n).flatMap (discDel g)) n
+  SepDiscSeq g [] (deepIfs g (ifaceListNode g n)) && SepNode g ((deepIfs g (ifaceListNode g n)).flatMap (discDel g)) n
 
 theorem removeNodeApi_closed (g : G) (n : Nat) (hk : (g.cls? n == some .node && g.kind? n != some kFacility) = true)
     (h : SepNodeApi g n = true) : removeNodeApi g n = .ok (g.minus (nodeApiDel g n)) := by
   simp only [SepNodeApi, Bool.and_eq_true] at h
-  have h1 := disconnectAll_after g _ [] h.1
-  rw [minus_nil] at h1
-  simp only [removeNodeApi, hk, ite_true, h1, bind, Except.bind, List.nil_append]
+  simp only [removeNodeApi, hk, ite_true, disconnectDeep_after g _ h.1, bind, Except.bind]
   exact removeNodeG_after g _ n h.2
 
 theorem removeFacilityApi_closed (g : G) (n : Nat) (hk : (g.cls? n == some .node && g.kind? n == some kFacility) = true)
     (h : SepNodeApi g n = true) : removeFacilityApi g n = .ok (g.minus (nodeApiDel g n)) := by
   simp only [SepNodeApi, Bool.and_eq_true] at h
-  have h1 := disconnectAll_after g _ [] h.1
-  rw [minus_nil] at h1
-  simp only [removeFacilityApi, hk, ite_true, h1, bind, Except.bind, List.nil_append]
+  simp only [removeFacilityApi, hk, ite_true, disconnectDeep_after g _ h.1, bind, Except.bind]
   exact removeNodeG_after g _ n h.2
 
-def compApiDel (g : G) (c : Nat) : List Nat := (ifaceListComp g c).flatMap (discDel g) ++ compDel g c
+def compApiDel (g : G) (c : Nat) : List Nat := (deepIfs g (ifaceListComp g c)).flatMap (discDel g) ++ compDel g c
 
 def SepCompApi (g : G) (c : Nat) : Bool :=
-  SepDiscSeq g [] (ifaceListComp g c) && SepComp g ((ifaceListComp g c).flatMap (discDel g)) c
+  SepDiscSeq g [] (deepIfs g (ifaceListComp g c)) && SepComp g ((deepIfs g (ifaceListComp g c)).flatMap (discDel g)) c
 
 theorem removeComponentApi_closed (g : G) (c : Nat) (h : SepCompApi g c = true) :
     removeComponentApi g c = .ok (g.minus (compApiDel g c)) := by
   simp only [SepCompApi, Bool.and_eq_true] at h
-  have h1 := disconnectAll_after g _ [] h.1
-  rw [minus_nil] at h1
   have hc : g.cls? c = some .comp := by
     have := h.2; simp only [SepComp, Bool.and_eq_true, beq_iff_eq] at this; exact this.1.1.1
-  simp only [removeComponentApi, hc, beq_self_eq_true, ite_true, h1, bind, Except.bind, List.nil_append]
+  simp only [removeComponentApi, hc, beq_self_eq_true, ite_true, disconnectDeep_after g _ h.1, bind, Except.bind]
   exact removeComp_after g _ c h.2
+
+/-- closed form of `Topology.remove_network_service` / `Node.remove_network_service` -/
+def nsApiDel (g : G) (s : Nat) : List Nat := (deepIfs g (g.nbrs s .connects .cp)).flatMap (discDel g) ++ nsDel g s
+
+def SepNsApi (g : G) (s : Nat) : Bool :=
+  SepDiscSeq g [] (deepIfs g (g.nbrs s .connects .cp)) && SepNs g ((deepIfs g (g.nbrs s .connects .cp)).flatMap (discDel g)) s
+
+theorem removeNsApi_closed (g : G) (s : Nat) (h : SepNsApi g s = true) :
+    removeNsApi g s = .ok (g.minus (nsApiDel g s)) := by
+  simp only [SepNsApi, Bool.and_eq_true] at h
+  have hc : g.cls? s = some .ns := by
+    have := h.2; simp only [SepNs, Bool.and_eq_true, beq_iff_eq] at this; exact this.1.1.1
+  simp only [removeNsApi, hc, beq_self_eq_true, ite_true, disconnectDeep_after g _ h.1, bind, Except.bind]
+  exact removeNs_after g _ s h.2
+
+/-- the ServicePorts a link peers -/
+def spEnds (g : G) (l : Nat) : List Nat := (g.nbrs l .connects .cp).filter (fun p => g.kind? p == some kServicePort)
+
+/-- closed form of `Topology.remove_link` -/
+def linkApiDel (g : G) (l : Nat) : List Nat := l :: (spEnds g l).flatMap (fun p => cpDel g p true)
+
+theorem removeLinkApi_closed (g : G) (l : Nat) (hc : g.cls? l = some .link) (h : SepSeq g [l] (spEnds g l) = true) :
+    removeLinkApi g l = .ok (g.minus (linkApiDel g l)) := by
+  simp only [removeLinkApi, hc, beq_self_eq_true, ite_true]
+  have := seqCp g _ [l] h
+  simpa [linkApiDel, spEnds] using this
 
 end FimVerif.Remove
